@@ -119,6 +119,7 @@ PROPS = {
     "C15": {
         "lanes": [
             {"lane": "unpack", "quick": 2500, "thorough": 60000},
+            {"lane": "unpack", "quick": 1500, "thorough": 30000, "uid": 65534},
         ],
         "trusted_base": [STDLIB, FSMODEL],
         "assumptions": ["well-formed archives for the oracle: no entry passes through or lands on a link, no kind conflict on a path, names inside dst, link targets relative and staying inside (kind conflicts are outside the property's claim)"],
